@@ -215,6 +215,11 @@ bool is_number(jsoncons::string_view str)
                     state = is_number_state::decimal_digit;
                     ++i;
                 }
+                else if (c == 'e' || c == 'E')
+                {
+                    state = is_number_state::exponent;
+                    ++i;
+                }
                 else 
                 {
                     state = is_number_state::octal;
